@@ -299,8 +299,8 @@ package protocol
 //@   // name of the user that authenticated it
 //@   requires seg.block != nil ==> blockUser(seg.block) != ""
 //@   requires s.block.v != nil ==> *asptr(s.block.v, *cipher.BlockCipher) != nil && blockUser(*asptr(s.block.v, *cipher.BlockCipher)) != ""
-//@   ensures s.isClient && !(protoOf(seg) == 3 || protoOf(seg) == 7 || protoOf(seg) == 11 || protoOf(seg) == 9 || protoOf(seg) == 4 || protoOf(seg) == 5) ==> err != nil && s.nextRecv.v == old(s.nextRecv.v) && ghost(qn) == old(ghost(qn))
-//@   ensures !s.isClient && !(protoOf(seg) == 2 || protoOf(seg) == 6 || protoOf(seg) == 10 || protoOf(seg) == 8 || protoOf(seg) == 4 || protoOf(seg) == 5) ==> err != nil && s.nextRecv.v == old(s.nextRecv.v) && ghost(qn) == old(ghost(qn))
+//@   ensures old(s.isClient) && !(old(protoOf(seg)) == 3 || old(protoOf(seg)) == 7 || old(protoOf(seg)) == 11 || old(protoOf(seg)) == 9 || old(protoOf(seg)) == 4 || old(protoOf(seg)) == 5) ==> err != nil && s.nextRecv.v == old(s.nextRecv.v) && ghost(qn) == old(ghost(qn))
+//@   ensures !old(s.isClient) && !(old(protoOf(seg)) == 2 || old(protoOf(seg)) == 6 || old(protoOf(seg)) == 10 || old(protoOf(seg)) == 8 || old(protoOf(seg)) == 4 || old(protoOf(seg)) == 5) ==> err != nil && s.nextRecv.v == old(s.nextRecv.v) && ghost(qn) == old(ghost(qn))
 //@
 //@ // Configured padding maxima are honoured (0 means none) and never exceeded (C16, C14).
 //@ func maxPaddingSizeWithTrafficPattern(mtu int, transport common.TransportProtocol, fragmentSize int, existingPaddingSize int, trafficPattern *appctlpb.TrafficPattern, position paddingPosition) (r int)
